@@ -21,6 +21,7 @@ Inductive cmd :=
 | CSetLevel (l : nat) (v : N)
 | CSetSinkLevel (k : nat) (v : N)
 | CAddFilter (k : nat) (m : N)
+| CShrink (t : nat) (c : N)     (* shrink_thread_local_queue(c) + get_thread_local_queue_capacity() *)
 | CTick (d : N)
 | CCtx
 | CPoll (inj : list (N * N * list cmd)).   (* (yield point, visit, commands) *)
@@ -104,6 +105,10 @@ Definition exec_simple (sx : st * list op) (c : cmd) : st * list op :=
   | CSetLevel l v => app_ops sx [F (FSetLevel l v)]
   | CSetSinkLevel k v => app_ops sx [F (FSetSinkLevel k v)]
   | CAddFilter k m => app_ops sx [F (FAddFilter k m)]
+  | CShrink t c =>
+      if busy (fst sx) t then note sx [O_RES; 0] else
+      let sx1 := app_ops sx [F (FReg t); F (FShrink t c)] in
+      note sx1 [9; match uqs (th (fst sx1) t) with Some u => Queue.UQDefs.producer_capacity u | None => c_cap K end]
   | CTick d => app_ops sx [F (FTick d)]
   | CCtx => note sx [O_CTX; N.of_nat (length (registered (fst sx)))]
   | CPoll _ => sx
@@ -208,6 +213,7 @@ Fixpoint dec_simple (fuel : nat) (l : list N) : list cmd :=
     | 11 :: t :: id :: lgi :: capv :: fl :: sz :: r => CFlush (N.to_nat t) (mk_ctl (KInitBt (N.to_nat capv) fl) id lgi sz) :: dec_simple f r
     | 12 :: t :: id :: lgi :: sz :: r => CFlush (N.to_nat t) (mk_ctl KFlushBt id lgi sz) :: dec_simple f r
     | 13 :: k :: m :: r => CAddFilter (N.to_nat k) m :: dec_simple f r
+    | 14 :: t :: c :: r => CShrink (N.to_nat t) c :: dec_simple f r
     | 10 :: r => CCtx :: dec_simple f r
     | _ => []
     end
@@ -245,6 +251,7 @@ Fixpoint dec_cmds (fuel : nat) (l : list N) : list cmd :=
     | 11 :: t :: id :: lgi :: capv :: fl :: sz :: r => CFlush (N.to_nat t) (mk_ctl (KInitBt (N.to_nat capv) fl) id lgi sz) :: dec_cmds f r
     | 12 :: t :: id :: lgi :: sz :: r => CFlush (N.to_nat t) (mk_ctl KFlushBt id lgi sz) :: dec_cmds f r
     | 13 :: k :: m :: r => CAddFilter (N.to_nat k) m :: dec_cmds f r
+    | 14 :: t :: c :: r => CShrink (N.to_nat t) c :: dec_cmds f r
     | 10 :: r => CCtx :: dec_cmds f r
     | _ => []
     end
@@ -252,7 +259,7 @@ Fixpoint dec_cmds (fuel : nat) (l : list N) : list cmd :=
 
 (* 1 + the largest thread id used by a case, 0 (= no compaction) for small cases *)
 Definition cmd_thread (c : cmd) : nat :=
-  match c with CLog t _ _ | CResume t | CFlush t _ | CExit t => S t | _ => 0%nat end.
+  match c with CLog t _ _ | CResume t | CFlush t _ | CExit t | CShrink t _ => S t | _ => 0%nat end.
 Fixpoint cmds_max (cs : list cmd) : nat :=
   match cs with
   | [] => 0%nat
@@ -292,10 +299,10 @@ Definition st0 (clock0 : N) (nl ns : nat) (lgf : nat -> lgr) (skf : nat -> snk) 
      gh := {| g_denied := 0; g_reported := 0; g_lost := 0 |} |}.
 
 (* case: be <dropping> <capk> <batch> <on_batch> <on_drain> <tinit> <soft> <hard> <grace> <bits> <refresh2>
-        <catchall> <report_first> <bt_reset> <bt_guard> <bt_catch> <flush_iv> <clock0> <nloggers> {level nsinks sinks..} <nsinks> {level nthrow idx..} commands... *)
+        <catchall> <report_first> <bt_reset> <bt_guard> <bt_catch> <flush_iv> <follow_chain> <clock0> <nloggers> {level nsinks sinks..} <nsinks> {level nthrow idx..} commands... *)
 Definition be_run_enc (l : list N) : list N :=
   match l with
-  | dr :: capk :: batch :: ob :: od :: tinit :: soft :: hard :: grace :: bits :: rf2 :: ca :: rfirst :: btr :: btg :: btc :: fiv :: clock0 :: nl :: r =>
+  | dr :: capk :: batch :: ob :: od :: tinit :: soft :: hard :: grace :: bits :: rf2 :: ca :: rfirst :: btr :: btg :: btc :: fiv :: follow :: clock0 :: nl :: r =>
       (* dr = 2: UnboundedBlocking frontend queue (initial capacity 2^capk, grows on demand, never at its maximum in
          these runs): byte accounting by a bounded queue too large to fill (a FIFO that never refuses), node
          structure by the M-UQ state carried in the thread record (it decides the per-call read limit) *)
@@ -305,7 +312,7 @@ Definition be_run_enc (l : list N) : list N :=
                   c_grace := grace; c_bits := bits; c_refresh2 := negb (rf2 =? 0); c_catch_all := negb (ca =? 0);
                   c_report_first := negb (rfirst =? 0);
                   c_bt := {| reset_index_in_process := negb (btr =? 0); cap0_guard := negb (btg =? 0) |};
-                  c_bt_catch := negb (btc =? 0); c_flush_iv := fiv |} in
+                  c_bt_catch := negb (btc =? 0); c_flush_iv := fiv; c_follow := negb (follow =? 0) |} in
       let (lgf, r1) := dec_loggers (N.to_nat nl) 0 r (fun _ => mk_lgr 0 []) in
       match r1 with
       | ns :: r2 =>
